@@ -278,9 +278,17 @@ class SymReal:
     def __pow__(self, p):
         if isinstance(p, SymReal):
             if p.t.op != 'c':
-                raise TypeError("symbolic exponent")
+                return SymReal(tm.exp(tm.mul(p.t, tm.log(self.t))))      # x ** p = exp(p log x), x > 0
             p = p.t.val
         return SymReal(tm.rpow(self.t, tm.rationalise(p)))
+
+    def sinh(self):
+        e = tm.exp(self.t)
+        return SymReal(tm.scale(tm.sub(e, tm.recip(e)), Fraction(1, 2)))
+
+    def cosh(self):
+        e = tm.exp(self.t)
+        return SymReal(tm.scale(tm.add(e, tm.recip(e)), Fraction(1, 2)))
 
     def __rpow__(self, b):
         raise TypeError("symbolic exponent")
